@@ -59,6 +59,8 @@ pub trait ArrayBuilder: Sized + Send + Sync + 'static {
 
     fn extend_from_nulls(&mut self, count: usize);
 
+    /// Replace the validity of the last `valid.len()` elements. The elements before them (e.g.
+    /// those decoded from a previous block into the same builder) keep theirs.
     fn replace_bitmap(&mut self, valid: BitVec);
 
     /// Create a new builder with `capacity`.
